@@ -104,13 +104,19 @@ func main() {
 	files["RoleGates.v"] = genRoleGates() // t38x/rolegates.go: arm statement order, READONLY, protected-mode, followStep lpos (C15)
 	files["GlobMeta.v"] = genGlobMeta(*repo) // t38x/globmeta.go: glob.IsGlob case list + the ROAM clause's pattern-vs-literal call sites (C20)
 	files["SetHookOrder.v"] = genSetHookOrder() // t38x/sethookorder.go: cmdSetHook's registry statements in source order (C20: re-defined roaming fences)
+	files["SetOld.v"] = genSetOld()         // t38x/setold.go: where cmdSET's d.old comes from + the fenceMatchRoam call (C20)
+	files["HookEquals.v"] = genHookEquals() // t38x/hookequals.go: the tests of (*Hook).Equals, field and comparison (C20)
 	files["ShrinkFinal.v"] = genShrinkFinal() // t38x/shrinkfinal.go: statements of the final section of aofshrink (C09)
 	files["LiveHandover.v"] = genLiveHandover() // t38x/livehandover.go: what netServe's hand-over to live mode does to the PipelineReader (C16)
+	files["MvtArgs.v"] = genMvtArgs() // t38x/mvtargs.go: the HTTP tile-path rewrite and its call site (C16)
 	files["FollowSteps.v"] = genFollowSteps() // t38x/followsteps.go: guarded statements of the follower side of replication (C06)
 	files["ShrinkEntry.v"] = genShrinkEntry() // t38x/shrinkentry.go: entry section + epilogue of aofshrink, writes of s.shrinklog / s.shrinking (C08: a refused AOFSHRINK changes nothing)
+	files["SocketWrites.v"] = genSocketWrites() // t38x/socketwrites.go: every write to a socket / unknown writer, reply blocks of netServe, Client.Write (C08: replies leave after the flush only)
 	files["ReplayTol.v"] = genReplayTol() // t38x/replaytol.go: commandErrIsFatal evaluated on every error sentinel + its use in loadAOF (C03)
+	files["AofPos.v"] = genAofPos() // t38x/aofpos.go: every use of Server.aof and of its local aliases (C03: the append discipline)
 	files["PkgVars.v"] = genPkgVars() // t38x/pkgvars.go: package-level variables and their writes; what leaves a function that hands memory back to a sync.Pool (C11)
 	files["HookRetention.v"] = genHookRetention() // t38x/hookretention.go: origin of the options of every Tx.Set, writes through the shared hook-log defaults (C10)
+	files["FieldBin.v"] = genFieldBin(*repo) // t38x/fieldbin.go: fake slice headers (size-header windows), binary.PutUvarint buffers and the uvarint body of internal/field/list_binary.go (C01: packed field lists)
 	if len(errs) > 0 {
 		for _, e := range errs {
 			fmt.Fprintln(os.Stderr, "t38x: obligation broken:", e)
@@ -2588,5 +2594,52 @@ func genLuaAllow() string {
 	fmt.Fprintf(&sb, "Definition lua_base_fns : list string := %s.\n", coqStrList(mapKeys("openBaseSubset", "basefns")))
 	fmt.Fprintf(&sb, "Definition lua_os_fns : list string := %s.\n", coqStrList(mapKeys("openOsSubset", "osfns")))
 	fmt.Fprintf(&sb, "Definition lua_newindex_locked : bool := %s.\n", coqBool(newindex))
+	// how the interpreter itself is configured: the lua.Options of NewState and every method called on the new
+	// state (SetMx starts a watchdog that os.Exit()s the whole process, OpenLibs opens io/os/..., SetContext ...)
+	var opts, methods []string
+	stateVar := ""
+	ast.Inspect(fd.Body, func(n ast.Node) bool {
+		if as, ok := n.(*ast.AssignStmt); ok && len(as.Lhs) == 1 && len(as.Rhs) == 1 {
+			if call, ok := as.Rhs[0].(*ast.CallExpr); ok && strings.TrimSpace(exprText(call.Fun)) == "lua NewState" {
+				if id, ok := as.Lhs[0].(*ast.Ident); ok {
+					stateVar = id.Name
+				}
+				for _, a := range call.Args {
+					cl, ok := a.(*ast.CompositeLit)
+					if !ok {
+						fail("lStatePool.New %s: NewState with options that are not a literal", pos(a))
+						continue
+					}
+					for _, el := range cl.Elts {
+						if kv, ok := el.(*ast.KeyValueExpr); ok {
+							opts = append(opts, strings.TrimSpace(exprText(kv.Key))+"="+strings.TrimSpace(exprText(kv.Value)))
+						} else {
+							fail("lStatePool.New %s: unknown option element", pos(el))
+						}
+					}
+				}
+			}
+		}
+		return true
+	})
+	if stateVar == "" {
+		fail("lStatePool.New: lua.NewState not found")
+	}
+	seen := map[string]bool{}
+	ast.Inspect(fd.Body, func(n ast.Node) bool {
+		if call, ok := n.(*ast.CallExpr); ok {
+			if sel, ok := call.Fun.(*ast.SelectorExpr); ok {
+				if id, ok := sel.X.(*ast.Ident); ok && id.Name == stateVar && !seen[sel.Sel.Name] {
+					seen[sel.Sel.Name] = true
+					methods = append(methods, sel.Sel.Name)
+				}
+			}
+		}
+		return true
+	})
+	sort.Strings(opts)
+	sort.Strings(methods)
+	fmt.Fprintf(&sb, "Definition lua_newstate_options : list string := %s.\n", coqStrList(opts))
+	fmt.Fprintf(&sb, "Definition lua_state_methods : list string := %s.\n", coqStrList(methods))
 	return sb.String()
 }
